@@ -28,11 +28,12 @@ RECYCLE_CHUNKS = 6
 BUDGET_S = {"quick": 900, "thorough": 6000}
 
 TAG = [None, ("lit", 1), ("litlist", (1, 3)), ("litlist", (2,))]
-MAIN = [None, ("lit", "i1"), ("match", "MItem", 1), ("match_sub", "MSubItem"), ("match2", 2), ("select", "MItem", 1),
-        ("select_sub", "MSubItem")]
+MAIN = [None, ("lit", "i1"), ("match", "MItem", 1), ("match", "MSubItem", 1), ("match_sub", "MSubItem"), ("match2", 2),
+        ("select", "MItem", 1), ("select_sub", "MSubItem")]
 SUBLISTS = [("i1",), ("i2",), ("i3",), ("i1", "i2"), ("i2", "i1"), ("i1", "i3"), ("i2", "i3"), ("i1", "i2", "i3")]
 ITEMS = ([None, ("lit", "i3"), ("lit", "i1")] + [("any", L) for L in SUBLISTS] + [("all", L) for L in SUBLISTS]
-         + [("match", "MItem", 1), ("match", "MItem", 2), ("match_sub", "MSubItem"), ("select", "MItem", 1)]
+         + [("match", "MItem", 1), ("match", "MItem", 2), ("match", "MSubItem", 1), ("match", "MSubItem", 2),
+            ("match_sub", "MSubItem"), ("select", "MItem", 1), ("select", "MSubItem", 1)]
          + [("select_any", L) for L in SUBLISTS[:4]] + [("select_all", L) for L in SUBLISTS[3:5]])
 
 
@@ -57,7 +58,8 @@ def init_worker():
     SymbolGraph().clear()
     SymbolGraph()
     pA, pB = M.MPart(1, "pA"), M.MPart(2, "pB")
-    it = {"i1": M.MItem(1, pA, "i1"), "i2": M.MSubItem(2, pB, "i2"), "i3": M.MItem(1, pB, "i3")}
+    it = {"i1": M.MItem(1, pA, "i1"), "i2": M.MSubItem(2, pB, "i2"), "i3": M.MItem(1, pB, "i3"),
+          "i4": M.MSubItem(1, pA, "i4")}
     names = list(it)
     lists = [()] + [(a,) for a in names] + [(a, b) for a in names for b in names]
     boxes = []
@@ -70,7 +72,7 @@ def init_worker():
     for n, b in enumerate(boxes):
         dom.append(b)
         if n % 40 == 0:
-            dom.append(it[names[n % 3]])  # foreign elements that must be filtered out
+            dom.append(it[names[n % 4]])  # foreign elements that must be filtered out
     _WORLD = (it, boxes, dom, (pA, pB))
 
 
@@ -89,7 +91,7 @@ def predicate(case):
             k = m[0]
             if k == "lit" and b.main is not it[m[1]]:
                 return False
-            if k in ("match", "select") and not (isinstance(b.main, M.MItem) and b.main.k == m[2]):
+            if k in ("match", "select") and not (isinstance(b.main, getattr(M, m[1])) and b.main.k == m[2]):
                 return False
             if k in ("match_sub", "select_sub") and not isinstance(b.main, M.MSubItem):
                 return False
@@ -103,7 +105,7 @@ def predicate(case):
                 return False
             if k in ("all", "select_all") and {id(e) for e in b.items} != {id(it[n]) for n in i[1]}:
                 return False
-            if k in ("match", "select") and not any(isinstance(e, M.MItem) and e.k == i[2] for e in b.items):
+            if k in ("match", "select") and not any(isinstance(e, getattr(M, i[1])) and e.k == i[2] for e in b.items):
                 return False
             if k == "match_sub" and not any(isinstance(e, M.MSubItem) for e in b.items):
                 return False
